@@ -41,10 +41,16 @@ type c32Relay struct {
 	btcdiff.Chain
 	epoch     uint64
 	cur, prev *big.Int
+	failDiff  bool // reading the epoch difficulties fails (relay / RPC trouble)
+	diffAsked int
 }
 
 func (d *c32Relay) CurrentEpoch() (uint64, error) { return d.epoch, nil }
 func (d *c32Relay) GetCurrentAndPrevEpochDifficulty() (*big.Int, *big.Int, error) {
+	d.diffAsked++
+	if d.failDiff {
+		return nil, nil, fmt.Errorf("relay read failed")
+	}
 	return new(big.Int).Set(d.cur), new(big.Int).Set(d.prev), nil
 }
 
@@ -163,6 +169,21 @@ func c32Run(r *vrep.R, c c32Case, epochOf func(uint64) uint64) (class string) {
 	}
 	if acc != c.Conf {
 		report("accumulated", fmt.Sprintf("accumulated confirmations %d returned, chain says %d", acc, c.Conf))
+	}
+	// the same question while the relay cannot tell its epoch difficulties: wherever the
+	// code needs them (it asked for them above), a required-confirmations number that
+	// differs from the right one must not come out as if nothing had happened
+	if relay.diffAsked > 0 {
+		relay.failDiff = true
+		var fw bool
+		var freq uint
+		var ferr error
+		p, _ := vrep.Guard(func() { fw, _, freq, ferr = getProofInfo(bitcoin.Hash{1}, btc, spvChain, relay) })
+		relay.failDiff = false
+		if p == nil && ferr == nil && fw && uint64(freq) != wantRequired {
+			report("required-on-relay-failure:"+class, fmt.Sprintf(
+				"the relay's epoch difficulties could not be read, yet getProofInfo answered within=true with %d required confirmations (the right number is %d)", freq, wantRequired))
+		}
 	}
 	if uint64(required) != wantRequired {
 		kind := "required:" + class
